@@ -9,6 +9,15 @@ namespace DFS { bool verbose = false; }
 #include "/repo/dfs/exceptions.cc"
 #include "/repo/dfs/driveselector.cc"
 #include "/repo/dfs/storage.cc"
+#include "/repo/dfs/stringutil.cc"
+#include "/repo/dfs/fsp.cc"
+#include "/repo/dfs/dfs_unused.cc"
+#include "/repo/dfs/dfs_catalog.cc"
+#include "/repo/dfs/opus_cat.cc"
+#include "/repo/dfs/dfs_volume.cc"
+#include "/repo/dfs/dfs_filesystem.cc"
+#include "/repo/dfs/identify.cc"
+#include "/repo/dfs/img_load.cc"
 
 using DFS::byte;
 
@@ -118,4 +127,60 @@ extern "C" void h_blockwise(void)
   vf_observe(got.has_value());
   if (got && lba * 256 + 256 == f.size) vf_witness("last complete sector of the file");
   if (!got && lba * 256 < f.size) vf_witness("partial sector at the end of the file");
+}
+
+// ---------------------------------------------------------------- C04-K2: MMB slot table -> views
+namespace {
+struct MmbTable : public DFS::FileAccess
+{
+  byte status[4];                      // status bytes of slots 0..3 (symbolic); every later slot is read-write (0x0F)
+  unsigned reads = 0;
+  std::vector<byte> read(unsigned long offset, unsigned long count) override
+  {
+    ++reads;
+    std::vector<byte> v(256);
+    (void)count;
+    const unsigned long sec = offset / 256;
+    for (unsigned i = 0; i < 16; ++i)
+      {
+        const long slot = static_cast<long>(sec * 16 + i) - 1;
+        v[16 * i + 15] = (slot >= 0 && slot < 4) ? status[slot] : 0x0F;
+      }
+    return v;
+  }
+};
+}
+// ViewFile::add_view is replaced (ir2c --replace) by this recorder: growing a vector of 511 FileViews (two strings
+// each) gave no verdict in 25 min; what matters is which parameters each slot's view is created with.
+namespace rec {
+unsigned n; unsigned long skip[5]; unsigned take[5], leave[5], total[5];
+void stub_add_view(DFS::ViewFile *, const DFS::internal::FileView& v)
+{
+  if (n < 5) { skip[n] = v.initial_skip_; take[n] = v.take_; leave[n] = v.leave_; total[n] = v.total_; }
+  ++n;
+}
+}
+extern "C" void h_mmb_views(void)
+{
+  MmbTable *t = new MmbTable;
+  for (unsigned i = 0; i < 4; ++i) t->status[i] = vf_nondet_u8();
+  bool threw = false; MmbFile *mmb = nullptr;
+  try { mmb = new MmbFile(std::string("x.mmb"), false, std::unique_ptr<DFS::FileAccess>(t)); } catch (std::exception&) { threw = true; }
+  vf_assert(!threw && mmb != nullptr, "a complete slot table is accepted");
+#ifdef VF_NATIVE
+  // no call redirection in the native build: read the recorder's data off the real vector of views
+  if (mmb) { rec::n = 0; for (const auto& v : mmb->views_) rec::stub_add_view(mmb, v); }
+#endif
+  vf_assert(rec::n == 511, "an MMB archive has 511 slots, each presented as one drive");
+  const unsigned k = vf_nondet_u8() % 5;            // slots 0..3 have symbolic status; slot 4 is the first plain one
+  const bool present = k >= 4 || t->status[k] == 0x00 || t->status[k] == 0x0F;
+  vf_assert((rec::take[k] != 0) == present, "a slot is usable iff its status byte is 0x00 (read-only) or 0x0F (read-write)");
+  if (present)
+    {
+      vf_assert(rec::skip[k] == 32 + 800ul * k, "slot k begins 32 + 800k sectors into the file: byte offset 8192 + 204800k");
+      vf_assert(rec::take[k] == 800 && rec::leave[k] == 0 && rec::total[k] == 800, "each slot is one contiguous 80-track, 10-sector, single-sided image");
+    }
+  vf_observe(rec::take[k]); vf_observe(rec::skip[k]);
+  if (k == 3 && present && t->status[1] == 0xF0) vf_witness("formatted slot after an unformatted one");
+  if (!present) vf_witness("unformatted or invalid slot");
 }
